@@ -689,7 +689,7 @@ def run(tier, seed):
     drv = os.environ.get("VERIF_C14_DRIVER") or common.build_harness("c14")
     orc = common.build_oracle("err", ["err_model"])
     rng = random.Random(seed)
-    n_schemas = 320 if tier == "quick" else 12000
+    n_schemas = 320 if tier == "quick" else 30000
     if not proved:
         n_schemas *= 2
     kfs = {k["id"]: k for k in own_findings()}
@@ -744,7 +744,7 @@ def run(tier, seed):
     multi = [i for i, o in enumerate(out_a) if o.startswith("ERR\tValidation") and not o.startswith("ERR\tValidation\t1\t")]
     multi_set = set(multi)
     others = [i for i in range(len(cases)) if i not in multi_set]
-    n_thr = 250 if tier == "quick" else 6000
+    n_thr = 250 if tier == "quick" else 12000
     t_ix = list(range(len(corpus))) + rng.sample(multi, min(len(multi), n_thr * 2 // 3))
     t_ix += rng.sample(others, min(len(others), n_thr - len(t_ix) + len(corpus)))
     BATCH = 25
